@@ -56,6 +56,10 @@ var transTargets = []transTarget{
 	{"chainimport", "headersImport", "determineDivergenceSyncModes", "determineDivergenceSyncModes"},
 	{"chainimport", "headersImport", "determineProcessingRegions", "determineProcessingRegions"},
 	{"", "ChainService", "prepareCFiltersQuery", "prepareCFiltersQuery"},
+	{"query", "peerRanking", "AddPeer", "peerRanking_AddPeer"},
+	{"query", "peerRanking", "Punish", "peerRanking_Punish"},
+	{"query", "peerRanking", "Reward", "peerRanking_Reward"},
+	{"query", "peerRanking", "ResetRanking", "peerRanking_ResetRanking"},
 }
 
 // external packages whose struct types / constants the translator looks into
@@ -182,6 +186,10 @@ type oparam struct {
 	name string
 	typ  string
 	call bool
+	// written: receiver state the function assigns; it is threaded through the function (reads see
+	// the latest value) and its final value is an extra component of the result
+	written bool
+	obj     types.Object // stand-in variable for a written path
 }
 
 type tfunc struct {
@@ -205,6 +213,7 @@ type tfunc struct {
 	decl    []map[string]bool
 	retType string
 	results []types.Type
+	state   []*oparam      // written receiver state, threaded
 	named   []types.Object // named results
 	params  []string       // "(p1 : T)" in order, Go params
 	pnames  []string
@@ -573,7 +582,7 @@ func (t *tfunc) run(qual string) {
 	c := &ctx{resT: t.retType, ret: func(v string) block { return block{v} }}
 	body := t.stmts(fd.Body.List, c, func() block {
 		if len(t.results) == 0 {
-			return block{"()"}
+			return block{t.withState(nil)}
 		}
 		t.bad(fd.Name, "control reaches the end of a function with results")
 		return nil
@@ -595,6 +604,9 @@ func (t *tfunc) run(qual string) {
 		kind := "read of"
 		if o.call {
 			kind = "call of"
+		}
+		if o.written {
+			kind = "receiver state (read and written; its final value is the last part of the result)"
 		}
 		hdr = append(hdr, fmt.Sprintf("  %s = %s `%s`", o.name, kind, o.key))
 	}
@@ -843,6 +855,40 @@ func (t *tfunc) prepass() {
 		return true
 	}
 	ast.Inspect(t.fd.Body, walk)
+	written := map[string]bool{}
+	ast.Inspect(t.fd.Body, func(n ast.Node) bool {
+		var targets []ast.Expr
+		switch v := n.(type) {
+		case *ast.AssignStmt:
+			targets = v.Lhs
+		case *ast.IncDecStmt:
+			targets = []ast.Expr{v.X}
+		case *ast.ExprStmt:
+			if c, ok := v.X.(*ast.CallExpr); ok && len(c.Args) == 2 && src(c.Fun) == "delete" {
+				targets = []ast.Expr{c.Args[0]}
+			}
+		}
+		for _, l := range targets {
+			// strip index expressions: p.rank[k] = v writes p.rank
+			for {
+				if ix, ok := ast.Unparen(l).(*ast.IndexExpr); ok {
+					l = ix.X
+					continue
+				}
+				break
+			}
+			if path, ok := t.recvPath(l); ok && path != "" {
+				if _, isSel := ast.Unparen(l).(*ast.SelectorExpr); isSel {
+					if _, known := items[path]; known {
+						written[path] = true
+					} else {
+						t.bad(l, "write to receiver state below a path that is read as a whole")
+					}
+				}
+			}
+		}
+		return true
+	})
 	var keys []string
 	for k := range items {
 		keys = append(keys, k)
@@ -864,11 +910,36 @@ func (t *tfunc) prepass() {
 				nr++
 				o.name = fmt.Sprintf("r%d", nr)
 			}
+			if written[k] {
+				o.written = true
+				o.obj = types.NewVar(token.NoPos, nil, o.name, types.Typ[types.Invalid])
+				t.names[o.obj] = o.name
+				t.state = append(t.state, o)
+			}
 			t.oparams = append(t.oparams, o)
 			t.okey[k] = o
 			t.vtype[o.name] = o.typ
 		}
 	}
+	if len(t.state) > 0 {
+		// the final values of the written receiver state are appended to the result
+		ts := []string{}
+		if len(t.results) > 0 {
+			ts = append(ts, t.retType)
+		}
+		for _, o := range t.state {
+			ts = append(ts, o.typ)
+		}
+		t.retType = tupleType(ts)
+	}
+}
+
+// withState appends the current values of the written receiver state to a result value
+func (t *tfunc) withState(vals []string) string {
+	for _, o := range t.state {
+		vals = append(vals, t.use(o.name))
+	}
+	return tupleOf(vals)
 }
 
 // ---- constants ------------------------------------------------------------------------
